@@ -163,6 +163,13 @@ Definition with_repair (i : nat) : fixes :=
   | _ => Build_fixes true true false false false true
   end.
 
+(* the behaviour in which exactly the open defects named by the low four bits of [m] are present (bit i set: defect
+   i as in the code; clear: repaired), both repaired defects repaired *)
+Definition fixes_of_mask (m : N) : fixes :=
+  Build_fixes true true (negb (N.testbit m 0)) (negb (N.testbit m 1)) (negb (N.testbit m 2)) (negb (N.testbit m 3)).
+
+Definition all_masks : list N := [0; 1; 2; 3; 4; 5; 6; 7; 8; 9; 10; 11; 12; 13; 14; 15].
+
 Definition attribution (t : tables) (c : c15_case) : N :=
   let base := pub_of (m_final t false current (c_step c) c) in
   let bit (i : nat) (w : N) := if same_on_univ base (pub_of (m_final t false (with_repair i) (c_step c) c)) then 0 else w in
@@ -180,8 +187,13 @@ Definition attribution (t : tables) (c : c15_case) : N :=
     else let e := m_final t false current true c in
          let l := m_final t false current false c in
          if same_on_univ (pub_of e) (fresh_of t e) && same_on_univ (pub_of l) (fresh_of t l) then 32 else 0 in
-  bit 0%nat 1 + bit 1%nat 2 + bit 2%nat 4 + bit 3%nat 8 + racy + atomic_ok
-  + (if same_on_univ (pub_of allr) (fresh_of t allr) then 0 else 64).
+  let named := bit 0%nat 1 + bit 1%nat 2 + bit 2%nat 4 + bit 3%nat 8 in
+  (* EXACT attribution (bit 7 set when it fails): the model in which exactly the named defects are present, every
+     other one repaired, predicts the same publishes as the model of the current code -- so, with the separate
+     check that the observation equals that prediction, the named defects and only they explain the observation *)
+  let exact := if same_on_univ base (pub_of (m_final t false (fixes_of_mask named) (c_step c) c)) then 0 else 128 in
+  named + racy + atomic_ok
+  + (if same_on_univ (pub_of allr) (fresh_of t allr) then 0 else 64) + exact.
 
 (* ---- phase 1: which oracle keys do the predictions depend on ---- *)
 Definition markers_of (t : tables) (os : option state) : list N :=
@@ -197,7 +209,7 @@ Definition keys_of_case (t : tables) (diverged : bool) (c : c15_case) : list N :
   ++ (if c_step c then [] else markers_of t (m_final t true current false c) ++ markers_of t (m_racy t true current c))
   ++ (if diverged
       then flat_map (fun fx => markers_of t (m_final t true fx (c_step c) c))
-             [with_repair 0; with_repair 1; with_repair 2; with_repair 3; all_repaired]
+             ([with_repair 0; with_repair 1; with_repair 2; with_repair 3; all_repaired] ++ map fixes_of_mask all_masks)
       else []).
 
 Fixpoint failing {A} (p : A -> bool) (i : nat) (l : list A) {struct l} : list nat :=
@@ -205,3 +217,33 @@ Fixpoint failing {A} (p : A -> bool) (i : nat) (l : list A) {struct l} : list na
   | [] => []
   | x :: l' => if p x then failing p (S i) l' else i :: failing p (S i) l'
   end.
+
+(* ------------------------------------------------------------------ the cache as shared state (C15, C17) *)
+(* Comparison of the cache-level harness (harness/overlay/c15_cache_test.go, package internal/lsp/cache) with
+   Model/LspCache.v.  Sequential histories: every result and the final contents of all maps must be what the
+   model computes.  Concurrent histories: results and final state must be explained by an interleaving of the
+   modelled atomic steps of the goroutines' operations (Model.LspCache.explained). *)
+From Regal Require Export Model.LspCache.
+
+(* run-length notation of the case-file printer for long diagnostic lists *)
+Definition rl (l : list (diag * nat)) : list diag := flat_map (fun p => repeat (fst p) (snd p)) l.
+
+Record cache_seq_case := {
+  q_ops : list (cop * result);      (* operation and the canonical form of what the implementation returned *)
+  q_final : list amap }.            (* contents of the maps at the end, in the order of all_fields *)
+
+Definition agrees_cache_seq (c : cache_seq_case) : bool :=
+  let '(s, rs) := run_ops (map fst (q_ops c)) cempty in
+  forallb (fun p => is_some (method_name (fst p))) (q_ops c)
+  && list_eqb result_eqb rs (map snd (q_ops c))
+  && dump_eqb (dump s) (q_final c).
+
+Record cache_conc_case := {
+  n_setup : list cop;                         (* performed sequentially before the goroutines start *)
+  n_threads : list (list (cop * result));     (* per goroutine: its operations in program order with their results *)
+  n_final : list amap }.
+
+Definition CFUEL : nat := 80.
+
+Definition agrees_cache_conc (c : cache_conc_case) : bool :=
+  explained CFUEL (n_setup c) (n_threads c) (n_final c).
